@@ -80,6 +80,10 @@ package pebble
 //@   requires fs != nil
 //@   ensures [C04.newrun] result == (fs.vCur[dir] == "")
 //@   modifies nothing
+// the data directory of a table's state machine: <base>/<host>/<name>
+//@ func GetNodeDBDirName
+//@   ensures [C04.dir.path+C14] result == pjoin(pjoin(baseDir, hostname), name)
+//@   modifies nothing
 //@ func GetCurrentDBDirName
 //@   assumed
 //@   results name, err
